@@ -755,6 +755,11 @@ fn is_retryable_error(err: &RepeError) -> bool {
                 | std::io::ErrorKind::ConnectionAborted
                 | std::io::ErrorKind::NotConnected
                 | std::io::ErrorKind::UnexpectedEof
+                // A write on a cached connection the peer already closed (or
+                // that the reader shut down after a fatal frame) fails with
+                // `BrokenPipe`. It must be retryable, or the dead client is
+                // never invalidated and every later call fails the same way.
+                | std::io::ErrorKind::BrokenPipe
                 | std::io::ErrorKind::WouldBlock
                 | std::io::ErrorKind::Interrupted
         ),
